@@ -140,7 +140,7 @@ var c13Specs = []bSpec{
 	{"Get.PathSwitchRequest", 1, 25, "srcamf ran", func(a *bArgs) (ngapType.NGAPPDU, []byte, error, bool) {
 		return viaWrapper(tglib.GetPathSwitchRequest(a.amf, a.ran))
 	}, false},
-	{"Get.HandoverRequired", 1, 12, "amf ran", func(a *bArgs) (ngapType.NGAPPDU, []byte, error, bool) {
+	{"Get.HandoverRequired", 1, 12, "amf ran hoplmn", func(a *bArgs) (ngapType.NGAPPDU, []byte, error, bool) {
 		return viaWrapper(tglib.GetHandoverRequired(a.amf, a.ran, a.tgtGNB, a.tgtCell))
 	}, false},
 	{"Get.HandoverRequestAcknowledge", 2, 13, "amf ran", func(a *bArgs) (ngapType.NGAPPDU, []byte, error, bool) {
@@ -298,7 +298,7 @@ var c13Specs = []bSpec{
 		return viaEncoder(tp.BuildAMFConfigurationUpdate(a.gnbName, genList[ngapType.ServedGUAMIItem](a, 1+a.r.Intn(3)),
 			genList[ngapType.PLMNSupportItem](a, 1+a.r.Intn(3)), int64(a.r.Intn(256)), nil, nil, nil))
 	}, false},
-	{"Build.HandoverRequired", 1, 12, "amf ran", func(a *bArgs) (ngapType.NGAPPDU, []byte, error, bool) {
+	{"Build.HandoverRequired", 1, 12, "amf ran hoplmn", func(a *bArgs) (ngapType.NGAPPDU, []byte, error, bool) {
 		return viaEncoder(tp.BuildHandoverRequired(a.amf, a.ran, a.tgtGNB, a.tgtCell))
 	}, false},
 	{"Build.CellTrafficTrace", 1, 2, "amf ran", func(a *bArgs) (ngapType.NGAPPDU, []byte, error, bool) {
@@ -398,7 +398,7 @@ func runC13(c *fw.Case) (o fw.Outcome) {
 	}
 	a.gnbName = string(nb)
 	a.tgtGNB = rbytes(r, 3)
-	a.tgtCell = rbytes(r, 5)
+	a.tgtCell = rbytes(r, 2) // gNB id (3 octets) + cell part = the 36-bit NR cell identity the builder assembles (5 octets, as its callers pass)
 	if r.Intn(3) == 0 {
 		a.tmsi = hexs(rbytes(r, 6))
 	}
@@ -719,6 +719,29 @@ func c13Verify(sp bSpec, a *bArgs, pdu *ngapType.NGAPPDU) (msg, key string) {
 			}
 		} else if uses["uli"] {
 			return "UserLocationInformation IE missing", "missing-uli"
+		}
+	}
+	if uses["hoplmn"] {
+		// HANDOVER REQUIRED: every PLMN identity of the message - the target id at NGAP level and, one level down, the cells
+		// named inside the Source to Target Transparent Container (target cell, UE history) - is the announced PLMN
+		var pl []reflect.Value
+		collectByType(root, "PLMNIdentity", &pl, 0)
+		var conts []reflect.Value
+		collectByType(root, "SourceToTargetTransparentContainer", &conts, 0)
+		for _, cv := range conts {
+			var inner ngapType.SourceNGRANNodeToTargetNGRANNodeTransparentContainer
+			if err := per.Unmarshal(cv.Field(0).Bytes(), &inner, "valueExt"); err != nil {
+				return fmt.Sprintf("Source to Target Transparent Container does not decode: %v", err), "bad-transfer"
+			}
+			collectByType(reflect.ValueOf(&inner), "PLMNIdentity", &pl, 0)
+		}
+		if len(conts) == 0 || len(pl) < 3 {
+			return fmt.Sprintf("HANDOVER REQUIRED with %d transparent container(s) and %d PLMN identities", len(conts), len(pl)), "missing-plmn"
+		}
+		for _, p := range pl {
+			if !bytes.Equal(p.Field(0).Bytes(), a.plmn) {
+				return fmt.Sprintf("a PLMN identity of HANDOVER REQUIRED (NGAP level or inside the transparent container) is %x, NG Setup announced %x", p.Field(0).Bytes(), a.plmn), "wrong-plmn"
+			}
 		}
 	}
 	if uses["gnb"] {
